@@ -282,7 +282,9 @@ def ray_triangle_id(
     vector = location - ray_origins[index_ray]
     distance = util.diagonal_dot(vector, ray_directions[index_ray])
     # the projection is scaled by the length of the direction vector
-    forward = distance > -1e-6 * util.row_norm(ray_directions[index_ray])
+    # and the slack is a distance, so it follows the size of the geometry
+    slack = 1e-6 * min(1.0, float(np.ptp(np.reshape(tree.bounds, (2, -1)), axis=0).max()))
+    forward = distance > -slack * util.row_norm(ray_directions[index_ray])
 
     index_tri = index_tri[forward]
     index_ray = index_ray[forward]
